@@ -1,3 +1,396 @@
 import UvModel.Signal
+import UvModel.Lemmas.SignalLemmas
+/-!
+# C13 — property theorems (model: `UvModel.Signal`; invariant: `Lemmas/SignalLemmas.lean`)
+
+`Reach s` = `s` is the state after an arbitrary event sequence (API calls, deliveries, loop
+iterations, in any order, with arbitrary callback scripts) from the initial state.
+-/
 namespace UvModel.Props.C13
+open UvModel.Signal
+
+/-- reachable states: any events, any callback script, any assignment of handles to loops -/
+def Reach (s : S) : Prop := ∃ loopOf sc evs, s = runEvs sc (init loopOf) evs
+
+theorem reach_inv {s : S} (h : Reach s) : Inv s := by
+  obtain ⟨lo, sc, evs, rfl⟩ := h; exact inv_runEvs sc evs (inv_init lo)
+
+def w1 : S := runEvs (fun _ => []) (init (fun i => i % 2))
+  [.op (.oneshot 0 10), .op (.start 1 10), .op (.oneshot 2 10), .deliver 10, .deliver 10]
+theorem w1_reach : Reach w1 := ⟨_, _, _, rfl⟩
+
+/-! ## fan-out -/
+
+/-- `fanout` (1): while libuv's handler is installed, a delivery makes the handler visit exactly the
+started handles of that signum — each one once — whatever loop they live on. -/
+theorem fanout_visits {s : S} (hr : Reach s) (sig : Nat) :
+    (handlerTargets s.tree sig).Nodup ∧
+    ∀ k, k ∈ handlerTargets s.tree sig ↔
+      (k = keyOf k.id (s.hs k.id) ∧ (s.hs k.id).signum = sig ∧ sig ≠ 0) := by
+  have hi := reach_inv hr
+  rw [handlerTargets_eq_filter sig hi.sorted]
+  refine ⟨(sorted_nodup hi.sorted).filter _, ?_⟩
+  intro k; simp only [List.mem_filter, decide_eq_true_eq]
+  constructor
+  · rintro ⟨hk, hs⟩
+    have := hi.key k hk
+    refine ⟨this.1, ?_, by rw [← hs]; exact this.2⟩
+    have h2 := this.1; rw [h2] at hs; simpa [keyOf] using hs
+  · rintro ⟨hk, hs, h0⟩
+    have := hi.started k.id (by rw [hs]; exact h0)
+    rw [← hk] at this
+    exact ⟨this, by rw [hk]; simpa [keyOf] using hs⟩
+
+/-- `fanout` (2): one visit writes exactly one message — tagged with the handle and the signum — at the
+tail of the pipe of *that handle's own loop*, touches no other pipe, and counts it in `caught`. -/
+theorem fanout_enqueue (s : S) (sig : Nat) (k : Key) :
+    let L := (s.hs k.id).loop
+    (enqueue sig s k).pipes L = s.pipes L ++ [⟨k.id, sig, (s.hs k.id).gen⟩] ∧
+    (∀ L', L' ≠ L → (enqueue sig s k).pipes L' = s.pipes L') ∧
+    ((enqueue sig s k).hs k.id).caught = (s.hs k.id).caught + 1 ∧
+    (∀ h, h ≠ k.id → (enqueue sig s k).hs h = s.hs h) := by
+  refine ⟨by simp [enqueue], ?_, by simp [enqueue], ?_⟩
+  · intro L' hL; simp [enqueue, upd_other _ _ _ _ hL]
+  · intro h hh; simp [enqueue, upd_other _ _ _ _ hh]
+
+/-- `fanout` (3): a delivery is exactly the fold of those visits (and nothing at all when the
+disposition is not libuv's). -/
+theorem fanout_deliver {s : S} (sig : Nat) (r : Bool) (hd : s.disp sig = .uv r) :
+    ∃ s0 : S, deliver s sig = (handlerTargets s.tree sig).foldl (enqueue sig) s0 ∧
+      s0.tree = s.tree ∧ s0.hs = s.hs ∧ s0.pipes = s.pipes := by
+  unfold deliver; rw [hd]
+  cases r <;> (simp only [Bool.false_eq_true, ↓reduceIte]; exact ⟨_, rfl, rfl, rfl, rfl⟩)
+
+example : (handlerTargets w1.tree 10).map (·.id) = [1, 0, 2] := by decide
+example : (w1.pipes 0).map (fun m => (m.h, m.sig)) = [(0, 10), (2, 10), (0, 10), (2, 10)] ∧
+          (w1.pipes 1).map (fun m => (m.h, m.sig)) = [(1, 10), (1, 10)] := by decide
+
+/-! ## dispatch: one callback per message, on the handle's loop, unless stopped in between -/
+
+theorem sigStop_frame (s : S) (h : Nat) :
+    (sigStop s h).trace = s.trace ∧ (sigStop s h).pipes = s.pipes ∧ (sigStop s h).ncb = s.ncb := by
+  unfold sigStop; simp only
+  split
+  · exact ⟨rfl, rfl, rfl⟩
+  · split <;> (try split) <;> exact ⟨rfl, rfl, rfl⟩
+
+theorem sigStart_frame (s : S) (h sig : Nat) (os : Bool) :
+    (sigStart s h sig os).1.trace = s.trace ∧ (sigStart s h sig os).1.pipes = s.pipes ∧
+    (sigStart s h sig os).1.ncb = s.ncb := by
+  have h1 := sigStop_frame s h
+  unfold sigStart
+  split
+  · exact ⟨rfl, rfl, rfl⟩
+  split
+  · exact ⟨rfl, rfl, rfl⟩
+  generalize sigStop s h = s1 at h1
+  simp only
+  cases hf : firstHandle s1.tree sig with
+  | none =>
+    simp only [Bool.true_and]; split
+    · exact h1
+    · simpa [register] using h1
+  | some f =>
+    simp only; split
+    · exact h1
+    · split <;> simpa [register] using h1
+
+theorem applyOp_frame (s : S) (o : Op) :
+    (applyOp s o).1.trace = s.trace ∧ (applyOp s o).1.pipes = s.pipes ∧ (applyOp s o).1.ncb = s.ncb := by
+  unfold applyOp
+  split
+  · exact ⟨rfl, rfl, rfl⟩
+  cases o with
+  | start h sig => exact sigStart_frame s h sig false
+  | oneshot h sig => exact sigStart_frame s h sig true
+  | stop h => exact sigStop_frame s h
+  | close h => exact sigStop_frame s h
+
+theorem runOps_frame (s : S) (os : List Op) :
+    (runOps s os).trace = s.trace ∧ (runOps s os).pipes = s.pipes ∧ (runOps s os).ncb = s.ncb := by
+  induction os generalizing s with
+  | nil => exact ⟨rfl, rfl, rfl⟩
+  | cons o os ih =>
+    have h1 := applyOp_frame s o
+    have h2 := ih (applyOp s o).1
+    exact ⟨h2.1.trans h1.1, h2.2.1.trans h1.2.1, h2.2.2.trans h1.2.2⟩
+
+/-- `fanout` (4) / `quiet_after_stop` (1): reading one message yields exactly one callback — for the
+message's handle, with the message's signum, on the loop being run — when the handle watches that
+signum at that moment, and no callback at all otherwise (in particular none for a handle that was
+stopped or closed after the signal was caught: its `signum` is 0 and messages never carry 0).
+Whatever the callback does, it cannot add callbacks or messages. -/
+theorem dispatch_one_callback (sc : Script) (s : S) (L : Nat) (m : Msg) :
+    (dispatchMsg sc s L m).trace =
+      (if m.sig = (s.hs m.h).signum then [Cb.signal m.h m.sig L m.gen (s.hs m.h).gen] else []) ++ s.trace ∧
+    (dispatchMsg sc s L m).pipes = s.pipes := by
+  unfold dispatchMsg
+  simp only
+  split
+  · rename_i hm
+    have h1 := runOps_frame { s with trace := .signal m.h m.sig L m.gen (s.hs m.h).gen :: s.trace, ncb := s.ncb + 1 } (sc s.ncb)
+    generalize runOps { s with trace := .signal m.h m.sig L m.gen (s.hs m.h).gen :: s.trace, ncb := s.ncb + 1 } (sc s.ncb) = s1 at h1
+    split
+    · rw [(sigStop_frame _ _).1, (sigStop_frame _ _).2.1]; exact ⟨by simpa using h1.1, h1.2.1⟩
+    · exact ⟨by simpa using h1.1, h1.2.1⟩
+  · split
+    · rw [(sigStop_frame _ _).1, (sigStop_frame _ _).2.1]; exact ⟨by simp, rfl⟩
+    · exact ⟨by simp, rfl⟩
+
+/-- messages in pipes never carry signum 0 and name a handle of that loop … kept simple: what
+`quiet_after_stop` needs is that a stopped handle (`signum = 0`) cannot match a real signal. -/
+theorem quiet_after_stop (sc : Script) (s : S) (L : Nat) (m : Msg) (hstopped : (s.hs m.h).signum = 0)
+    (hm : m.sig ≠ 0) : (dispatchMsg sc s L m).trace = s.trace := by
+  have := (dispatch_one_callback sc s L m).1
+  rw [this, hstopped]; simp [hm]
+
+/-- `quiet_after_stop` (2): a handle that is not watching `sig` when it is delivered gets no message
+(so nothing can be dispatched to it later for that delivery). -/
+theorem quiet_no_message {s : S} (hr : Reach s) (sig h : Nat) (hn : (s.hs h).signum ≠ sig) :
+    ∀ k ∈ handlerTargets s.tree sig, k.id ≠ h := by
+  intro k hk e
+  have := ((fanout_visits hr sig).2 k).1 hk
+  rw [e] at this; exact hn this.2.1
+
+/-- `uv_signal_stop` / `uv_close` leave the handle not watching, whatever its state was. -/
+theorem stop_stops (s : S) (h : Nat) : ((sigStop s h).hs h).signum = 0 ∧ ((uvClose s h).hs h).signum = 0 := by
+  refine ⟨sigStop_signum s h, ?_⟩
+  have := sigStop_signum s h
+  simp [uvClose, this]
+
+/-- `oneshot_once_then_stopped`: after the message of a one-shot handle has been processed the handle
+is stopped — unless the callback itself restarted it in regular mode — and by
+`dispatch_one_callback` that processing produced exactly one callback.  Any further message for it
+finds `signum = 0` (`quiet_after_stop`). -/
+theorem oneshot_once_then_stopped (sc : Script) (s : S) (L : Nat) (m : Msg) :
+    ((dispatchMsg sc s L m).hs m.h).oneshot = true → ((dispatchMsg sc s L m).hs m.h).signum = 0 := by
+  unfold dispatchMsg
+  simp only
+  generalize (if m.sig = (s.hs m.h).signum then _ else s) = s1
+  split
+  · intro _; exact sigStop_signum _ _
+  · rename_i hno; intro h; exact absurd h hno
+
+example : let s := dispatch (fun _ => []) w1 0
+    s.trace = [.signal 2 10 0 1 1, .signal 0 10 0 1 1] ∧ (s.hs 0).signum = 0 ∧ (s.hs 2).signum = 0 ∧
+    (s.hs 0).dispatched = 2 := by decide
+
+/-! ## close waits for caught signals -/
+
+/-- `close_waits_for_caught`: the close callback of a signal handle runs only when every caught
+signal has been read from the pipe (`caught ≤ dispatched`); otherwise the handle goes back into the
+closing queue of its loop and nothing else changes. -/
+theorem close_waits_for_caught (s : S) (h : Nat) :
+    ((s.hs h).dispatched < (s.hs h).caught →
+        (finishClose s h).trace = s.trace ∧ ((finishClose s h).hs h).closed = (s.hs h).closed ∧
+        h ∈ (finishClose s h).closingQ (s.hs h).loop) ∧
+    ((s.hs h).caught ≤ (s.hs h).dispatched →
+        (finishClose s h).trace = .close h :: s.trace ∧ ((finishClose s h).hs h).closed = true) := by
+  unfold finishClose
+  constructor
+  · intro hlt; simp [hlt]
+  · intro hle
+    have : ¬ (s.hs h).caught > (s.hs h).dispatched := by omega
+    simp [this]
+
+def w2 : S := runEvs (fun _ => []) (init (fun _ => 0))
+  [.op (.start 0 10), .op (.start 1 10), .deliver 10, .op (.close 0), .runClosing 0]
+example : w2.trace = [] ∧ w2.closingQ 0 = [0] ∧
+    (runLoop (fun _ => []) w2 0).trace = [.close 0, .signal 1 10 0 1 1] := by decide
+
+/-! ## disposition -/
+
+/-- `disposition`, as an equation valid in every reachable state: the kernel disposition of every
+signal is the function `expectedDisp` of the set of watchers and of "was the handler run since it was
+installed" (DESIGN §3 C13). -/
+theorem disposition {s : S} (hr : Reach s) (sig : Nat) :
+    s.disp sig = expectedDisp s.tree s.delivered sig := (reach_inv hr).disp sig
+
+/-- no handle watches `sig` ⇒ default disposition ("reverts to the default exactly when the last
+watcher stops": together with the next two theorems). -/
+theorem disposition_no_watcher {s : S} (hr : Reach s) (sig : Nat) (hn : ∀ h, (s.hs h).signum ≠ sig) :
+    s.disp sig = .dflt := by
+  have hi := reach_inv hr
+  rw [hi.disp sig]
+  have a : ∀ k ∈ s.tree, k.sig ≠ sig := by
+    intro k hk e; have := (hi.key k hk).1; rw [this] at e; exact hn k.id (by simpa [keyOf] using e)
+  have a1 : s.tree.any (fun k => k.sig = sig && !k.os) = false := by
+    apply List.any_eq_false.2; intro k hk; simp [a k hk]
+  have a2 : s.tree.any (fun k => decide (k.sig = sig)) = false := by
+    apply List.any_eq_false.2; intro k hk; simp [a k hk]
+  simp [expectedDisp, a1, a2]
+
+/-- a regular (non-one-shot) watcher exists ⇒ libuv's handler is installed without RESETHAND. -/
+theorem disposition_regular_watcher {s : S} (hr : Reach s) (sig h : Nat) (h0 : sig ≠ 0)
+    (hw : (s.hs h).signum = sig) (ho : (s.hs h).oneshot = false) : s.disp sig = .uv false := by
+  have hi := reach_inv hr
+  rw [hi.disp sig]
+  have hk := hi.started h (by rw [hw]; exact h0)
+  have a1 : s.tree.any (fun k => k.sig = sig && !k.os) = true :=
+    List.any_eq_true.2 ⟨_, hk, by simp [keyOf, hw, ho]⟩
+  simp [expectedDisp, a1]
+
+/-- only one-shot watchers ⇒ libuv's handler with RESETHAND, until a delivery: from then on the kernel
+has reset the disposition to default although the one-shot handles are still started (documented
+RESETHAND behaviour, DESIGN §5 interpretation (i)); a regular start or the stop of a regular watcher
+re-installs the handler (`delivered` is cleared by `register`). -/
+theorem disposition_oneshot_only {s : S} (hr : Reach s) (sig h : Nat) (h0 : sig ≠ 0)
+    (hw : (s.hs h).signum = sig) (hall : ∀ h', (s.hs h').signum = sig → (s.hs h').oneshot = true) :
+    s.disp sig = if s.delivered sig then .dflt else .uv true := by
+  have hi := reach_inv hr
+  rw [hi.disp sig]
+  have hk := hi.started h (by rw [hw]; exact h0)
+  have a1 : s.tree.any (fun k => k.sig = sig && !k.os) = false := by
+    apply List.any_eq_false.2; intro k hk'
+    by_cases e : k.sig = sig
+    · have h1 := (hi.key k hk').1
+      have : (s.hs k.id).signum = sig := by rw [h1] at e; simpa [keyOf] using e
+      have := hall k.id this
+      have h2 : k.os = true := by rw [h1]; simpa [keyOf] using this
+      simp [h2]
+    · simp [e]
+  have a2 : s.tree.any (fun k => decide (k.sig = sig)) = true :=
+    List.any_eq_true.2 ⟨_, hk, by simp [keyOf, hw]⟩
+  simp [expectedDisp, a1, a2]
+
+example : w1.disp 10 = .uv false ∧ (runEvs (fun _ => []) w1 [.op (.stop 1)]).disp 10 = .uv true ∧
+    (runEvs (fun _ => []) w1 [.op (.stop 1), .deliver 10]).disp 10 = .dflt ∧
+    (runEvs (fun _ => []) w1 [.op (.stop 1), .deliver 10, .op (.start 1 10)]).disp 10 = .uv false := by decide
+
+/-! ## restart -/
+
+/-- `restart_is_fresh_oneshot_bit` (full strength since the L2 fix): starting a stopped handle with
+`uv_signal_start` gives a regular handle watching `sig`, whatever its history (and with
+`uv_signal_start_oneshot` a one-shot one); the incarnation is new. -/
+theorem restart_is_fresh_oneshot_bit (s : S) (h sig : Nat) (os : Bool)
+    (hstopped : (s.hs h).signum = 0) (hok : (sigStart s h sig os).2 = 0) :
+    ((sigStart s h sig os).1.hs h).oneshot = os ∧ ((sigStart s h sig os).1.hs h).signum = sig ∧
+    ((sigStart s h sig os).1.hs h).gen = (s.hs h).gen + 1 := by
+  unfold sigStart at hok ⊢
+  split at hok
+  · simp at hok
+  rename_i hsig
+  have hne : ¬ sig = (s.hs h).signum := by rw [hstopped]; exact hsig
+  simp only [hsig, hne, ↓reduceIte, sigStop_noop hstopped] at hok ⊢
+  revert hok
+  cases hf : firstHandle s.tree sig with
+  | none =>
+    simp only [Bool.true_and]
+    by_cases hv : sigValid sig = true
+    · simp [hv, register]
+    · simp [hv]
+  | some f =>
+    simp only
+    by_cases hv : (!os && f.os && !sigValid sig) = true
+    · simp [hv]
+    · simp only [hv, Bool.false_eq_true, ↓reduceIte]; intro _; split <;> simp [register]
+
+example : let s := runEvs (fun _ => []) (init (fun _ => 0)) [.op (.oneshot 0 10), .deliver 10, .dispatch 0]
+    (s.hs 0).oneshot = true ∧ (s.hs 0).signum = 0 ∧ ((sigStart s 0 12 false).1.hs 0).oneshot = false := by decide
+
+/-- **Full statement, FALSE (L10).**  `restart_is_fresh` in the strong sense: every signal callback
+is for a signal caught by the *current* incarnation of the handle (a handle restarted after
+`uv_signal_stop` gets no callback for a signal delivered before the restart). -/
+def restart_is_fresh : Prop :=
+  ∀ (loopOf : Nat → Nat) (sc : Script) (evs : List Ev) (h sig L mgen hgen : Nat),
+    Cb.signal h sig L mgen hgen ∈ (runEvs sc (init loopOf) evs).trace → mgen = hgen
+
+/-- witness: start h SIGUSR1; deliver; stop h; start h SIGUSR1; dispatch → one callback without a new
+signal (replayed on the real library: known finding `stale-signal-msg-after-restart-same-signum`). -/
+theorem restart_is_fresh_false : ¬ restart_is_fresh := by
+  intro h
+  have := h (fun _ => 0) (fun _ => [])
+    [.op (.start 0 10), .deliver 10, .op (.stop 0), .op (.start 0 10), .dispatch 0] 0 10 0 1 2 (by decide)
+  exact absurd this (by decide)
+
+/-- no message of an earlier incarnation that could be mistaken for a current one -/
+def FreshH (s : S) (h : Nat) : Prop :=
+  ∀ L, ∀ m ∈ s.pipes L, m.h = h → m.sig = (s.hs h).signum → m.gen = (s.hs h).gen
+
+/-- `restart_is_fresh_partial` (a): a (re)start establishes `FreshH` when no pipe holds a message for
+the handle carrying the new signum — in particular when the loop's pipe holds no message for it, or
+when the new signum differs from that of every message still in flight. -/
+theorem restart_is_fresh_partial_start (s : S) (h sig : Nat) (os : Bool)
+    (hstopped : (s.hs h).signum = 0) (hok : (sigStart s h sig os).2 = 0)
+    (hnone : ∀ L, ∀ m ∈ s.pipes L, m.h = h → m.sig ≠ sig) : FreshH (sigStart s h sig os).1 h := by
+  intro L m hm hmh hms
+  rw [(sigStart_frame s h sig os).2.1] at hm
+  rw [(restart_is_fresh_oneshot_bit s h sig os hstopped hok).2.1] at hms
+  exact absurd hms (hnone L m hm hmh)
+
+/-- `restart_is_fresh_partial` (b): under `FreshH`, the callback produced for a message is for the
+current incarnation.  (Missing for the full statement: nothing — it is false; `FreshH` is preserved
+by every event except the restart excluded in (a); that preservation is not proved here.) -/
+theorem restart_is_fresh_partial_dispatch (sc : Script) (s : S) (L : Nat) (m : Msg) (hin : m ∈ s.pipes L)
+    (hf : FreshH s m.h) (h sig L' mgen hgen : Nat)
+    (hc : Cb.signal h sig L' mgen hgen ∈ (dispatchMsg sc s L m).trace) (hnew : Cb.signal h sig L' mgen hgen ∉ s.trace) :
+    mgen = hgen := by
+  rw [(dispatch_one_callback sc s L m).1] at hc
+  split at hc
+  · rename_i hm
+    rcases List.mem_append.1 hc with h1 | h1
+    · simp only [List.mem_singleton, Cb.signal.injEq] at h1
+      obtain ⟨_, _, _, rfl, rfl⟩ := h1
+      exact hf L m hin rfl hm
+    · exact absurd h1 hnew
+  · simp at hc; exact absurd hc hnew
+
+/-- **Full statement, FALSE** (sibling of L10, known finding `stale-signal-msg-stops-restarted-oneshot`):
+reading a message of an earlier incarnation does not change whether the handle is watching. -/
+def stale_msg_keeps_watching : Prop :=
+  ∀ (loopOf : Nat → Nat) (sc : Script) (evs : List Ev) (L : Nat) (m : Msg),
+    let s := runEvs sc (init loopOf) evs
+    m.gen ≠ (s.hs m.h).gen → ((dispatchMsg sc s L m).hs m.h).signum = (s.hs m.h).signum
+
+theorem stale_msg_keeps_watching_false : ¬ stale_msg_keeps_watching := by
+  intro h
+  have := h (fun _ => 0) (fun _ => [])
+    [.op (.start 0 10), .deliver 10, .op (.stop 0), .op (.oneshot 0 12)] 0 ⟨0, 10, 1⟩ (by decide)
+  exact absurd this (by decide)
+
+/-- partial: true for handles whose one-shot flag is clear and a message of another signum. -/
+theorem stale_msg_keeps_watching_partial (sc : Script) (s : S) (L : Nat) (m : Msg)
+    (hreg : (s.hs m.h).oneshot = false) (hsig : m.sig ≠ (s.hs m.h).signum) :
+    ((dispatchMsg sc s L m).hs m.h).signum = (s.hs m.h).signum := by
+  unfold dispatchMsg; simp [hsig, hreg]
+
+/-- **Full statement, FALSE** (known finding `oneshot-restarted-in-own-callback-stopped`): a handle
+that stops itself and starts again one-shot on another signal inside its own callback is watching
+that signal when the callback has returned. -/
+def own_callback_restart_survives : Prop :=
+  ∀ (loopOf : Nat → Nat) (evs : List Ev) (L : Nat) (m : Msg) (sig' : Nat),
+    let sc : Script := fun _ => [.stop m.h, .oneshot m.h sig']
+    let s := runEvs sc (init loopOf) evs
+    m.sig = (s.hs m.h).signum → m.sig ≠ 0 → sigValid sig' = true → (s.hs m.h).closing = false →
+    ((dispatchMsg sc s L m).hs m.h).signum = sig'
+
+theorem own_callback_restart_survives_false : ¬ own_callback_restart_survives := by
+  intro h
+  have := h (fun _ => 0) [.op (.oneshot 0 10), .deliver 10] 0 ⟨0, 10, 1⟩ 12 (by decide) (by decide) (by decide) (by decide)
+  exact absurd this (by decide)
+
+/-- partial: whatever the callback did, if the handle's one-shot flag is clear when the callback has
+returned (e.g. it restarted itself in regular mode) `uv__signal_event` does not stop it. -/
+theorem own_callback_restart_survives_partial (sc : Script) (s : S) (L : Nat) (m : Msg)
+    (hreg : ((dispatchMsg sc s L m).hs m.h).oneshot = false) (hm : m.sig = (s.hs m.h).signum) :
+    ((dispatchMsg sc s L m).hs m.h).signum =
+      ((runOps { s with trace := .signal m.h m.sig L m.gen (s.hs m.h).gen :: s.trace, ncb := s.ncb + 1 } (sc s.ncb)).hs m.h).signum := by
+  unfold dispatchMsg at hreg ⊢
+  simp only [hm, ↓reduceIte] at hreg ⊢
+  split
+  · rename_i hos
+    simp only [hos, ↓reduceIte] at hreg
+    have := sigStop_signum
+    -- the one-shot branch ends in sigStop, whose result keeps the flag: contradiction with hreg
+    exfalso
+    revert hreg
+    generalize (runOps _ _) = s1 at hos ⊢
+    intro hreg
+    by_cases e : (({ s1 with hs := upd s1.hs m.h { s1.hs m.h with dispatched := (s1.hs m.h).dispatched + 1 } } : S).hs m.h).signum = 0
+    · rw [sigStop_noop e] at hreg; rw [hreg] at hos; simp at hos
+    · have hhs : ∀ s2 : S, (s2.hs m.h).signum ≠ 0 → (sigStop s2 m.h).hs = upd s2.hs m.h { s2.hs m.h with signum := 0 } := by
+        intro s2 e2; simp only [sigStop, e2, ↓reduceIte]; split <;> (try split) <;> rfl
+      rw [hhs _ e] at hreg; simp at hreg hos; rw [hreg] at hos; simp at hos
+  · simp
+
 end UvModel.Props.C13
